@@ -113,6 +113,18 @@ NOTES = {
     "C20-M8": ("strings longer than 4096 bytes bypass the intern table", "the same text > 4096 bytes produced twice while both are live"),
     "C20-M9": ("objects of >= 4096 bytes allocated straight into the old generation", "short-lived large objects produced in volume between full collections"),
     "C20-M10": ("collection threshold computed before the non-object heap is swept", "raw buffers outweighing objects after a collection (deep call stack or hundreds of parked fibers)"),
+    # ---- fourth round (worktrees /tmp/wt4_<P>, four properties), stored as M11..M13
+    "C10-M11": ("forwarding chains are resolved one hop only", "one native call that makes a list move three times (a push of 13+ values), the list then used as a map key or stored two levels deep, a scanning list native, then the lookup"),
+    "C10-M12": ("List.insert rescans the stack before it inserts instead of after", "an exactly full list grown by insert, used as a map key or handed to another fiber before the next scanning native, then the lookup"),
+    "C10-M13": ("re-declaring an inherited field gives it a second slot", "a subclass init that assigns a field the base init already declares and adds a new one, the field accessed from a base-class method and by name"),
+    "C13-M11": ("module cache vector loses its alignment after an import that fails to compile", "the prompt: an import of a file that does not compile, then a good import and any site inside that module"),
+    "C13-M12": ("self.a.x keeps the lexical class's compile-time slot for x", "a method reading self.<a>.<x> where x is also a field of the enclosing class and self.<a> holds an instance of another class with x elsewhere"),
+    "C13-M13": ("re-declaring an inherited field moves it to a slot shared with the next new field", "a subclass init assigning an inherited field again plus a new field, read by name and through a superclass method"),
+    "C17-M11": ("the loader remembers module files it did not find", "the prompt: an import of a missing module, the session then writes the file itself, a second import of the same path"),
+    "C17-M12": ("an export named like a method every object has is left out of the module object", "an exported function named str / equals / cls reached through the whole-module form"),
+    "C17-M13": ("off-by-one in the instance field limit", "a module with exactly 256 exports imported in whole-module form"),
+    "C20-M11": ("dead classes are released without dropping their payload (method and field tables leak)", "classes that die: a class declaration executed repeatedly in a long run"),
+    "C20-M12": ("the old generation is swept only once it has doubled since the last sweep of any kind", "objects that survive one collection and then die, produced continuously under the shipped schedule"),
 }
 
 
@@ -133,7 +145,7 @@ def parse_eval(path):
     for line in open(path):
         match = re.match(r"== (C\d+) (?:(wt\d?) )?MUTANT(\d|_EXTRA)", line)
         if match:
-            offset = {None: 0, "wt": 0, "wt2": 3, "wt3": 6}[match.group(2)]
+            offset = {None: 0, "wt": 0, "wt2": 3, "wt3": 6, "wt4": 10}[match.group(2)]
             number = 4 if match.group(3) == "_EXTRA" else int(match.group(3))
             current = "%s-M%d" % (match.group(1), offset + number)
             results[current] = []
@@ -155,7 +167,7 @@ def main():
     evals = {key: [per_check[check] for check in sorted(per_check)] for key, per_check in merged.items()}
     os.makedirs(SEEDED, exist_ok=True)
     rows = []
-    rounds = [("wt", 0, "/tmp/confirm"), ("wt2", 3, "/tmp/confirm2"), ("wt3", 6, "/tmp/confirm3")]
+    rounds = [("wt", 0, "/tmp/confirm"), ("wt2", 3, "/tmp/confirm2"), ("wt3", 6, "/tmp/confirm3"), ("wt4", 10, "/tmp/confirm4")]
     for prop in ["C04", "C05", "C07", "C08", "C09", "C10", "C13", "C14", "C17", "C19", "C20"]:
       for prefix, offset, confirm_dir in rounds:
         for n, dirname in ((1, "MUTANT1"), (2, "MUTANT2"), (3, "MUTANT3"), (4, "MUTANT_EXTRA")):
